@@ -92,6 +92,21 @@ def main():
 
 CHECKS_NA = {}
 
+CHECKS["C11"] = dict(
+    category="exploration", design="§2 C11",
+    technique="exhaustive enumeration of enum definitions; rustc's discriminants as oracle; C/C++ compiled and run, JS executed in node, Dart/Kotlin/nanobind output interpreted by strict template parsers",
+    text="Every C-like enum with up to the stated number of variants over the discriminant alphabet {i32::MIN,-2,-1,0,1,2,5,i32::MAX} x {implicit, explicit} that rustc accepts is "
+         "generated for all six bindings; each variant's to-native value must equal what rustc prints for `V as i32` and from-native(rustc value) must select the variant of that name.",
+    note="Trusted: rustc as ground truth; gcc/g++/node executing the generated code; strict parsers for Dart/Kotlin/nanobind text (unknown forms are UNDECIDED = exit 2).")
+
+CHECKS["C13"] = dict(
+    category="model_checking", design="§2 C13",
+    technique="exhaustive enumeration of condition formulas (depth <= 3) x placements x payloads x backends through the real binary, against a reference boolean evaluator whose supports= atoms are probed from the implementation",
+    text="All formulas up to depth 2 over 13 atoms (depth 3 over reduced alphabets; thorough: the full alphabet) with not/any/all are placed on methods, types, impl blocks and modules, with "
+         "disable and rename payloads and inheritance pairs; for every backend the item must be present/absent/renamed exactly as the reference evaluator says, and the whole output "
+         "tree must be byte-identical to the tree of the canonical input (false attributes removed); the real macro must still export every function (nm).",
+    note="Trusted: the three-line boolean evaluator, the backend-name truth table, probed supports= values; presence is judged by distinctive tokens in generated files.")
+
 CHECKS["C17"] = dict(
     category="model_checking", design="§2 C17",
     technique="exhaustive enumeration of the configuration lattice (subsets of 3 sources x scoping x spelling x backend) through the real diplomat-tool binary against a reference precedence function",
